@@ -79,6 +79,8 @@ type GenesisCfg struct {
 	NoBaseFee   bool   `json:"noBaseFee"`
 	Coinomics   bool   `json:"coinomics"`
 	VotingSecs  int64  `json:"votingSecs"`
+	// NoPrecompiles starts the chain with only one active EVM extension (as a chain before the v1.8.0 upgrade)
+	NoPrecompiles bool `json:"noPrecompiles"`
 }
 
 func DefaultGenesisCfg(seed int64) GenesisCfg {
@@ -206,6 +208,13 @@ func (w *World) GenesisState() (map[string]json.RawMessage, []abci.ValidatorUpda
 	fm.Params.MinGasPrice = sdkmath.LegacyMustNewDecFromStr(cfg.MinGasPrice)
 	fm.Params.MinGasMultiplier = sdkmath.LegacyNewDecWithPrec(5, 1)
 	gs[feemarkettypes.ModuleName] = cdc.MustMarshalJSON(fm)
+
+	if cfg.NoPrecompiles {
+		var eg evmtypes.GenesisState
+		cdc.MustUnmarshalJSON(gs[evmtypes.ModuleName], &eg)
+		eg.Params.ActivePrecompiles = evmtypes.AvailableEVMExtensions[:1] // only the first extension (as on a chain before the upgrade)
+		gs[evmtypes.ModuleName] = cdc.MustMarshalJSON(&eg)
+	}
 
 	var gov govtypesv1.GenesisState
 	cdc.MustUnmarshalJSON(gs["gov"], &gov)
